@@ -114,6 +114,45 @@ theorem ref_of_find {m : Module} (hm : refModule m = true) {name : String} {sd :
   simp only [List.all_eq_true] at hm
   exact hm sd (find_mem h)
 
+/-- `P` holds of structures that satisfy the per-structure hypotheses of the refinement theorems
+and is closed under "type of a field of structure / `bits` type".  Instances: membership in a
+module all of whose structures are in the fragment (`closed_of_refModule`), and the decidable
+reachability closure `reachOK` (`closed_reach`). -/
+structure Closed (m : Module) (P : StructDef → Prop) : Prop where
+  ref : ∀ sd, P sd → refStruct m sd = true
+  loc : ∀ sd, P sd → reqLocal sd = true
+  step : ∀ sd, P sd → ∀ x f, sd.field x = some f → ∀ start size name bits args bo sd',
+    f.kind = .phys start size (.struct name bits args) bo → m.find name = some sd' → P sd'
+
+theorem closed_of_refModule {m : Module} (hm : refModule m = true) (hl : reqLocalModule m = true) :
+    Closed m (fun sd => sd ∈ m.structs) where
+  ref := fun sd h => by
+    unfold refModule at hm
+    exact List.all_eq_true.mp hm sd h
+  loc := fun sd h => by
+    unfold reqLocalModule at hl
+    exact List.all_eq_true.mp hl sd h
+  step := fun _ _ _ _ _ _ _ _ _ _ _ _ _ hfind => find_mem hfind
+
+theorem closed_reach (m : Module) : Closed m (fun sd => ∃ d, reachOK m d sd = true) where
+  ref := fun sd ⟨d, h⟩ => by
+    cases d with
+    | zero => simp [reachOK] at h
+    | succ d => simp only [reachOK, Bool.and_eq_true] at h; exact h.1.1
+  loc := fun sd ⟨d, h⟩ => by
+    cases d with
+    | zero => simp [reachOK] at h
+    | succ d => simp only [reachOK, Bool.and_eq_true] at h; exact h.1.2
+  step := fun sd ⟨d, h⟩ x f hf start size name bits args bo sd' hk hfind => by
+    cases d with
+    | zero => simp [reachOK] at h
+    | succ d =>
+      simp only [reachOK, Bool.and_eq_true, List.all_eq_true] at h
+      have := h.2 f (field_mem hf)
+      rw [hk] at this
+      simp only [hfind] at this
+      exact ⟨d, this⟩
+
 theorem viewWF_null (sd : StructDef) : viewWF (nullView sd) = true := by
   unfold viewWF nullView
   by_cases h : sd.unit = 8 <;> simp [h]
